@@ -213,7 +213,8 @@ def run(rep, tier, rng):
                         dict(base, op="history-inversion-matrix", side=x, obs=c.obs_json(o), py=f"A.get_inversion_matrix({d}, sidedness={algs.SIDE_PY[x]}) after {pos} other calls"),
                         ("h-imat", al, d, x, rnd, pos))
                 elif kind == "invert":
-                    o = c.observe(lambda: A.invert(algs.fl(y), sidedness=algs.side_obj(x)))
+                    arr = algs.fl(y) if pos % 2 == 0 else np.array(y, dtype=int)      # integer-typed arrays are vectors too
+                    o = c.observe(lambda: A.invert(arr, sidedness=algs.side_obj(x)))
                     add(f"check_invert {al} {c.zlist(y)} {x} {algs.tol_for(y)} {obs_t(o)}",
                         dict(base, op="history-invert", side=x, a=y, obs=c.obs_json(o), py=f"A.invert(a, sidedness={algs.SIDE_PY[x]}) after {pos} other calls"),
                         ("h-invert", al, d, x, rnd, pos))
